@@ -46,10 +46,15 @@ pub fn normalize(thorough: bool) -> Report {
                             let exp: Vec<String> = deps.iter().enumerate().map(|(di, u)| {
                                 if let Some(id) = u.strip_prefix("libcnb:") { map.get(&id.parse::<BuildpackId>().unwrap()).unwrap().to_string_lossy().to_string() }
                                 else if !u.contains(':') && !u.starts_with('/') { lex(loc.parent().unwrap(), u).to_string_lossy().to_string() }
-                                else { descriptor.dependencies[di].uri.to_string() } // verbatim = the URI as the descriptor parsed it
+                                else { let _ = di; u.to_string() } // verbatim = the text of the URI in the source package.toml
                             }).collect();
                             let gotu: Vec<String> = n.dependencies.iter().map(|d| d.uri.to_string()).collect();
-                            if gotu != exp { r.violation("dependencies", "normalised dependencies (count, order, values)", desc.clone(), format!("{exp:?}"), format!("{gotu:?}")); }
+                            // one class of difference is reported under its own case id (KNOWN_FINDINGS.txt, F7): a URI with an authority and an EMPTY path
+                            // (docker://img) is written with a trailing slash (docker://img/) - everything else is the general `dependencies` case
+                            let authority_only = |u: &str| u.split_once("://").map(|(_, rest)| !rest.is_empty() && !rest.contains('/')).unwrap_or(false);
+                            let same_but_slash = gotu.len() == exp.len() && gotu.iter().zip(exp.iter()).all(|(g, e)| g == e || (authority_only(e) && *g == format!("{e}/")));
+                            if gotu != exp && same_but_slash { r.violation("verbatim_authority_only_uri", "a URI with an authority and an empty path is not copied verbatim: a trailing slash is appended", desc.clone(), format!("{exp:?}"), format!("{gotu:?}")); }
+                            else if gotu != exp { r.violation("dependencies", "normalised dependencies (count, order, values)", desc.clone(), format!("{exp:?}"), format!("{gotu:?}")); }
                             if n.buildpack.uri.to_string() != descriptor.buildpack.uri.to_string() || format!("{:?}", n.platform) != format!("{:?}", descriptor.platform) { r.violation("buildpack_and_platform_kept", "buildpack URI / platform changed", desc.clone(), "unchanged".into(), "changed".into()); }
                             match toml::to_string(&n).ok().and_then(|s| toml::from_str::<PackageDescriptor>(&s).ok()) { Some(back) => { if format!("{back:?}") != format!("{n:?}") { r.violation("reparse", "result does not parse back to itself", desc.clone(), "equal".into(), "different".into()); } } None => r.violation("reparse", "result does not serialise/parse", desc.clone(), "Ok".into(), "Err".into()) }
                         }
